@@ -12,6 +12,8 @@ package c18
 import (
 	"net/http"
 	"net/url"
+	"os"
+	"slices"
 	"strings"
 	"testing"
 	"time"
@@ -347,6 +349,25 @@ func TestCheck(t *testing.T) {
 		"a hint whose only fault is an iat in the future, a foreign kid or a missing kid is judged Either (the statement only fixes bad signature, foreign issuer and expiry)",
 		"a hint without azp proves no client: redirecting to the requested URI is then never allowed; together with a client_id the request may be refused or served with the default URI",
 		"no post_logout_redirect_uri requested: default redirect or rejection are both accepted (the statement only speaks about requested URIs)")
+	// C18_PARTS (development aid): comma-separated subset of the parts to run; default all.
+	// The two small parts run first so that a deadline on a loaded machine cuts the big product.
+	want := func(part string) bool {
+		sel := os.Getenv("C18_PARTS")
+		return sel == "" || slices.Contains(strings.Split(sel, ","), part)
+	}
+	if want("hosts") {
+		runHosts(t, c, full)
+	}
+	if want("uri-nearmiss") {
+		runNearMiss(t, c, full)
+	}
+	if want("end_session") {
+		runMain(t, c, space)
+	}
+	c.Finish()
+}
+
+func runMain(t *testing.T, c *engine.Check, space engine.Space) {
 	c.RunE1(engine.E1{
 		Part:  "end_session",
 		Space: space,
@@ -380,7 +401,4 @@ func TestCheck(t *testing.T) {
 			}
 		},
 	})
-	runNearMiss(t, c, full)
-	runHosts(t, c, full)
-	c.Finish()
 }
